@@ -100,6 +100,7 @@ static ToolRun make_run(uint64_t seed, uint64_t run, bool fault_cfg) {
     unsigned bs = T.bs; unsigned maxk = T.tool == 1 ? 2 * bs : 3 * bs;
     static const unsigned lens[] = {0, 1, 7, 8, 9, 15, 16, 17, 1023, 1024, 1025, 2047, 2048, 2049, 3000};
     unsigned n = r.chance(1, 2) ? lens[r.below(15)] : (r.chance(1, 3) ? 2048 + r.below(64) : r.below(5001));
+    if (r.chance(1, 60)) n = 60000 + r.below(12000);       // rarely a file longer than 64 KiB
     T.input = r.bytes(n);
     unsigned klen = r.chance(1, 2) ? bs * r.range(1, maxk / bs) : r.range(bs, maxk);
     T.key = r.bytes(klen);
